@@ -668,6 +668,54 @@ pub fn oracle(ctx: &mut Ctx) {
             st.sample(format!("{} under pools {:?}", case.opts.show(), results.iter().map(|r| (r.0, r.1)).collect::<Vec<_>>()));
         }
     }
+    // ---- the executable over a set of files (the pool is also what runs the files side by side): whatever --threads
+    // says, the same files are written with the same bytes - also when one file of the set is skipped (a C2PA manifest
+    // the policy keeps) or cannot be decoded ---------------------------------------------------------------------------
+    if crate::cli::bin_path().exists() {
+        let dir = crate::cli::work_dir("determinism");
+        for _ in 0..(ctx.n / 40).max(4) {
+            let w = dir.join("w");
+            let _ = std::fs::remove_dir_all(&w);
+            std::fs::create_dir_all(&w).unwrap();
+            let mut c2pa = crate::img::EncOpts::default();
+            c2pa.pre_idat.push((*b"caBX", crate::front::c2pa_chunk()));
+            let n = rng.range(3, 7) as usize;
+            let mut names: Vec<String> = vec![];
+            for k in 0..n {
+                let name = format!("f{}.png", k);
+                let data = match rng.below(5) {
+                    0 => { let (img, _) = crate::gen::gen_himg(&mut rng, 5); img.encode_png(&mut rng, &c2pa) }
+                    1 => b"not a png at all".to_vec(),
+                    _ => gen_case(&mut rng, Profile::Lossless, false, 8).input,
+                };
+                std::fs::write(w.join(&name), data).unwrap();
+                names.push(name);
+            }
+            let mut snapshot: Option<(String, Vec<(String, Vec<u8>)>, Option<i32>)> = None;
+            for threads in ["1", "2", "4", "16"] {
+                let out = format!("o{}", threads);
+                let mut args: Vec<String> = vec!["-q".into(), "--keep".into(), "caBX".into(), "--force".into(), "--dir".into(), out.clone(), "--threads".into(), threads.into()];
+                args.extend(names.iter().cloned());
+                let r = crate::cli::run_bin(&w, &args);
+                let mut files: Vec<(String, Vec<u8>)> = std::fs::read_dir(w.join(&out)).map(|d| d.filter_map(|e| e.ok()).map(|e| (e.file_name().to_string_lossy().to_string(), std::fs::read(e.path()).unwrap_or_default())).collect()).unwrap_or_default();
+                files.sort();
+                st.count("binary_file_set_runs");
+                match &snapshot {
+                    None => snapshot = Some((threads.to_string(), files, r.status)),
+                    Some((t0, f0, s0)) => {
+                        if *f0 != files || *s0 != r.status {
+                            let list = |f: &Vec<(String, Vec<u8>)>| f.iter().map(|(n, b)| format!("{}:{}", n, b.len())).collect::<Vec<_>>().join(" ");
+                            let inputs: Vec<String> = names.iter().map(|nm| format!("{}: {}", jstr(nm), jstr(&crate::img::hex(&std::fs::read(w.join(nm)).unwrap_or_default())))).collect();
+                            st.fail("nondeterministic", format!("the executable over {} files: --threads {} writes [{}] (exit {:?}), --threads {} writes [{}] (exit {:?})", n, t0, list(f0), s0, threads, list(&files), r.status),
+                                format!("{{\"args\": {}, \"files_hex\": {{{}}}}}", jstr(&args.join(" ")), inputs.join(", ")));
+                            break;
+                        }
+                    }
+                }
+            }
+        }
+        let _ = std::fs::remove_dir_all(&dir);
+    }
     ctx.write_stats(&st);
 }
 
